@@ -675,10 +675,10 @@ Proof.
   destruct (c_complete (h_cfg h)) eqn:Ec; [|cbn; repeat split; auto; discriminate].
   destruct (h_js h) as [j|] eqn:Ej; cbn [fst snd result_eqb negb].
   2:{ cbn. repeat split; auto. }
-  set (h1 := h_with_cfg h (cfg_with_submitted (cfg_with_complete (h_cfg h) false) v)).
+  set (h1 := h_with_cfg h (cfg_with_submitted (cfg_with_canceled (cfg_with_complete (h_cfg h) false) false) v)).
   set (s1 := mkS (s_disk s) (s_wedged s) (upd (s_handles s) i h1)).
   assert (Hn1 : nth_error (s_handles s1) i = Some h1) by (eapply nth_error_upd_eq; eauto).
-  rewrite (step_nl s1 _ HCheckCfgNL _ Hn1 eq_refl). cbn [act s_disk s1]. unfold chk_cfg. cbn [h1 h_with_cfg h_cfg cfg_with_submitted cfg_with_complete c_version].
+  rewrite (step_nl s1 _ HCheckCfgNL _ Hn1 eq_refl). cbn [act s_disk s1]. unfold chk_cfg. cbn [h1 h_with_cfg h_cfg cfg_with_submitted cfg_with_complete cfg_with_canceled c_version].
   destruct (c_version (h_cfg h) =? d_cfg_vf (s_disk s)) eqn:Ev; cbn [negb fst snd result_eqb].
   2:{ cbn. repeat split; auto. }
   match goal with |- context [step ?s2 (Do i HCheckJsNL)] =>
